@@ -51,8 +51,11 @@ def match_known(sig: dict, known: list[dict]):
     for f in known:
         if f.get("status") != "open":
             continue
+        if sig.get("property") not in [f.get("property")] + list(f.get("also_affects", [])):
+            continue
         pats = f.get("signatures") or [f.get("signature", {})]
         for p in pats:
+            p = {k: v for k, v in p.items() if k != "property"}  # the property is matched through property / also_affects
             if p and _sig_match(p, sig):
                 return f["id"]
     return None
